@@ -25,7 +25,7 @@ const MS: u64 = 1_000_000;
 static UNIQ: AtomicU64 = AtomicU64::new(0);
 
 /// task programs
-pub const PROGS: [&str; 11] = ["Return", "Panic", "PanicFmt", "Suspend", "Delay5", "CancelSelf", "CancelPrev", "Delay5x2", "SubmitInside", "JoinNext", "Delay100"];
+pub const PROGS: [&str; 12] = ["Return", "Panic", "PanicFmt", "Suspend", "Delay5", "CancelSelf", "CancelPrev", "Delay5x2", "SubmitInside", "JoinNext", "Delay100", "JoinSkipShort"];
 
 #[derive(Clone, Debug, PartialEq, Eq)]
 pub enum Op {
@@ -268,8 +268,8 @@ struct Shared {
     body_cancels: Vec<(usize, bool, bool)>,
     /// submissions made from inside a task body: (task, pool was Running, accepted)
     inner_submits: Vec<(usize, bool, bool)>,
-    /// joins made from inside a task body: (joiner, target, result)
-    inner_joins: Vec<(usize, usize, String)>,
+    /// joins made from inside a task body: (joiner, target, result, virtual start, timeout in ns)
+    inner_joins: Vec<(usize, usize, String, u64, u64)>,
 }
 
 pub struct Outcome {
@@ -427,7 +427,27 @@ pub fn run_history(cfg: &Cfg, hist: &[Op], emit_at: Option<&mut Emitter>) -> Out
                                     Ok(Err(m)) => format!("Err({m})"),
                                     Err(e) => format!("IoErr({:?})", e.kind()),
                                 };
-                                shc.lock().unwrap().inner_joins.push((t, tt, txt));
+                                shc.lock().unwrap().inner_joins.push((t, tt, txt, 0, 5_000 * MS));
+                            }
+                            step(1);
+                        }
+                        "JoinSkipShort" => {
+                            // joins the task submitted TWO places later with a 50 ms timeout: the joiner's own
+                            // try_run rounds first run the task in between
+                            let target = {
+                                let s = shc.lock().unwrap();
+                                s.ids.get(t + 2).copied().filter(|id| *id != 0).map(|id| (t + 2, id))
+                            };
+                            if let Some((tt, id)) = target {
+                                let pool = CoroutinePool::current().expect("current pool");
+                                let t0 = now();
+                                let r = pool.wait_task_result(id, Duration::from_millis(50));
+                                let txt = match r {
+                                    Ok(Ok(v)) => format!("Ok({v:?})"),
+                                    Ok(Err(m)) => format!("Err({m})"),
+                                    Err(e) => format!("IoErr({:?})", e.kind()),
+                                };
+                                shc.lock().unwrap().inner_joins.push((t, tt, txt, t0, 50 * MS));
                             }
                             step(1);
                         }
@@ -657,7 +677,7 @@ pub fn run_history(cfg: &Cfg, hist: &[Op], emit_at: Option<&mut Emitter>) -> Out
                 }
                 witnesses.push("submission_from_inside_a_task");
             }
-            for (j, target, txt) in joins {
+            for (j, target, txt, started_at, timeout) in joins {
                 witnesses.push("join_from_inside_a_task");
                 if target < tasks.len() && tasks[target].accepted && !tasks[target].cancelled {
                     let want = match expected_result(tasks[target].prog) {
@@ -665,8 +685,14 @@ pub fn run_history(cfg: &Cfg, hist: &[Op], emit_at: Option<&mut Emitter>) -> Out
                         Err(m) => format!("Err({m})"),
                     };
                     let _ = (&fin, &st);
-                    if txt != want {
-                        push(&mut viols, "C02", "wait-returns-own-outcome", "waiter-is-a-task", at(format!("task T{j} joined task T{target} from inside the pool with a 5s timeout and got {txt}; T{target}'s own outcome is {want}")));
+                    // a short wait may time out - but only if the target had not finished by the deadline
+                    let finished_at = sh.lock().unwrap().log.iter().filter(|e| e.1 == target).map(|e| e.0).max();
+                    let legit_timeout = timeout < 1000 * MS && txt == "IoErr(TimedOut)" && finished_at.is_none_or(|f| f > started_at + timeout);
+                    if txt != want && !legit_timeout {
+                        push(&mut viols, "C02", "wait-returns-own-outcome", "waiter-is-a-task", at(format!("task T{j} joined task T{target} from inside the pool with a {}ms timeout (from {}ns) and got {txt}; T{target}'s own outcome is {want}, it finished at {finished_at:?}ns", timeout / MS, started_at.saturating_sub(T0))));
+                    }
+                    if timeout < 1000 * MS && txt == want {
+                        witnesses.push("short_join_from_inside_a_task_got_the_result");
                     }
                 }
             }
@@ -1010,6 +1036,8 @@ pub fn configs(scen: &str, tier: &str) -> Vec<Cfg> {
         "pool.c02" => {
             v.push(all("one-pool", vec![(0, 2, 0)], 4, &["Return", "Panic", "PanicFmt", "Delay5"], &[0], d(2, 3), &["submit", "pass", "adv", "wait", "join", "stop"], d(5, 6)));
             v.push(all("join-from-task", vec![(0, 1, 0)], 4, &["Return", "Panic", "JoinNext"], &[0], d(3, 4), &["submit", "pass"], d(5, 6)));
+            // a task joins with a SHORT timeout while its own wait loop runs a slow task; another worker finishes the target in time
+            v.push(all("short-join-from-task", vec![(0, 2, 0)], 4, &["Return", "Delay100", "JoinSkipShort"], &[0], d(3, 4), &["submit", "pass", "adv"], d(5, 6)));
             v.push(all("two-pools", vec![(0, 2, 0), (0, 2, 0)], 1, &["Return", "Panic"], &[0], d(3, 3), &["submit", "pass", "wait", "join"], d(5, 6)));
         }
         // C05 (pool part): single worker, priorities
